@@ -1694,8 +1694,8 @@ func (s *Netceptor) handleMessageData(md *MessageData) error {
 		s.listenerLock.RUnlock()
 		select {
 		case <-pc.context.Done():
-			close(pc.recvChan)
-
+			// The socket was closed while this delivery was waiting. The channel must not be closed
+			// here: several deliveries can wait on the same socket.
 			return nil
 		case pc.recvChan <- md:
 		}
